@@ -66,7 +66,7 @@ def run_witness(dirname, lines, repo=None, features=""):
     dirname = dirname + tag
     d, line_map, pkg = _write_crate(dirname, lines, repo, features)
     env = dict(os.environ)
-    env["CARGO_TARGET_DIR"] = os.path.join(WORK, "witness-target" + tag)
+    env["CARGO_TARGET_DIR"] = os.path.join(WORK, "witness-target")      # shared (cargo locks it): dependencies are built once
     env["CARGO_NET_OFFLINE"] = "true"
     env.pop("RUSTC_WRAPPER", None)
     env["RUSTFLAGS"] = "-Awarnings"
